@@ -250,6 +250,16 @@ def analyse(ctx, prop, cfg, res, oracle):
                                 "history": cfg.get("_history")}}
             case = dict(case, **tag)
             mcfg = (cfg.get("methods") or {}).get(m, {})
+            # the schedule must be built for exactly the sites of THIS run's configuration (all of them are
+            # sampled: site_samples = number of sites in the sites file)
+            want_sites = sorted(int(s_["id"]) for s_ in cfg.get("sites", []))
+            got_sites = sorted(st["site"] for st in static)
+            if want_sites and cfg.get("n_sites") == len(want_sites) and got_sites != want_sites:
+                ctx.violate(prop + ":wholerun:schedule-built-for-other-sites-than-configured",
+                            f"method {m}: the run is configured with sites {want_sites}, the schedule holds planners "
+                            f"for {got_sites}" + (f" (earlier run in this folder differed in {cfg['_history']['kind']})"
+                                                  if cfg.get("_history") else ""),
+                            {"wholerun": tag["wholerun"], "case": {"wholerun": tag["wholerun"]}})
             for wa in cfg.get("wide_applied") or []:
                 if wa["path"][0] == "m" and wa["path"][1] == m:
                     ctx.count("wide:" + wa["tag"] + ":" + wa["path"][-1] + "=" + str(wa["value"])[:24])
